@@ -314,12 +314,26 @@ fn cover_case(ctx: &mut Ctx, base: &Tab, cov: &Tab, tag: &str) {
     });
 }
 
-fn labels<T: DSet>(ds: &T, p: &Partition<usize>) -> Vec<usize> {
-    let n = ds.size();
+/// the raw partition through the public API, in this order of calls: `find(&d)` for d = 1..=n,
+/// then `find(&(n + 1))` and `find(&0)` (keys the partition has never seen), then
+/// `classes(&[1..=n])`.  (Every `find` goes through the `UnsafeCell`: interning and path
+/// compression happen in exactly this order in the model as well.)
+fn raw_partition(n: usize, p: &Partition<usize>) -> (Vec<usize>, Vec<usize>, Vec<Vec<usize>>) {
     let reps: Vec<usize> = (1..=n).map(|d| p.find(&d)).collect();
+    let probes = vec![p.find(&(n + 1)), p.find(&0)];
+    let elms: Vec<usize> = (1..=n).collect();
+    let classes = p.classes(&elms);
+    (reps, probes, classes)
+}
+
+/// labels of 1..=n by first member of the class (what the Spec looks at)
+fn labels(reps: &[usize]) -> Vec<usize> {
+    let n = reps.len();
     (1..=n).map(|d| 1 + (0..n).position(|k| reps[k] == reps[d - 1]).unwrap()).collect()
 }
 
+/// flags of the successive `fold`s, first-member labels, then the raw partition: the
+/// representatives `find` returns, the two probes, the class listing
 fn fold_with<T: DSet>(ds: &T, pairs: &[(usize, usize)]) -> String {
     let mut p: Partition<usize> = Partition::new();
     let mut out: Vec<usize> = vec![];
@@ -332,8 +346,11 @@ fn fold_with<T: DSet>(ds: &T, pairs: &[(usize, usize)]) -> String {
             None => out.push(0),
         }
     }
-    out.extend(labels(ds, &p));
-    join(&out)
+    let (reps, probes, classes) = raw_partition(ds.size(), &p);
+    out.extend(labels(&reps));
+    out.extend(reps);
+    out.extend(probes);
+    format!("{} {}", join(&out), enc_lists(&classes))
 }
 
 fn fold_case(ctx: &mut Ctx, kind: usize, t: &Tab, pairs: &[(usize, usize)], tag: &str) {
@@ -449,6 +466,16 @@ fn main() {
             } else {
                 ctx.skip();
             }
+            if ctx.peek_mine() {
+                // the union–find behind minimal_image on the same large symbol (deep forests)
+                let base = b.parse::<PartialDSym>().unwrap();
+                let cov = Tab::from_dsym(&finite_universal_cover(&base));
+                let tag = format!("nt big dim={} size={}", cov.dim, cov.size);
+                let seq: Vec<(usize, usize)> = (2..=cov.size).map(|d| (1, d)).collect();
+                fold_case(&mut ctx, 1, &cov, &seq, &tag);
+            } else {
+                ctx.skip();
+            }
         }
     }
 
@@ -510,6 +537,9 @@ fn main() {
                         morph(&mut ctx, 1, s, &c, &ctag);
                         auts(&mut ctx, 1, &c, &ctag);
                         minimg(&mut ctx, &c, &ctag);
+                        // the union–find behind minimal_image(cover): representatives, classes
+                        let seq: Vec<(usize, usize)> = (2..=c.size).map(|d| (1, d)).collect();
+                        fold_case(&mut ctx, 1, &c, &seq, &ctag);
                     }
                 }
             }
@@ -558,6 +588,8 @@ fn main() {
                     morph(&mut ctx, 1, &c, s, &ctag);
                     auts(&mut ctx, 1, &c, &ctag);
                     minimg(&mut ctx, &c, &ctag);
+                    let seq: Vec<(usize, usize)> = (2..=c.size).map(|d| (1, d)).collect();
+                    fold_case(&mut ctx, 1, &c, &seq, &ctag);
                 }
             }
         }
